@@ -389,7 +389,10 @@ func windowCases() []winCase {
 	targets := []struct {
 		t int64
 		l string
-	}{{fwE - 1, "E-1"}, {fwE, "E"}, {fwE + 1, "E+1"}, {fwI - 1, "I-1"}, {fwI, "I"}, {fwI + 1, "I+1"}}
+	}{{fwE - 1, "E-1"}, {fwE, "E"}, {fwE + 1, "E+1"}, {fwI - 1, "I-1"}, {fwI, "I"}, {fwI + 1, "I+1"},
+		// instants far outside the range of a 64-bit nanosecond count (1678..2262): a window test that goes through
+		// UnixNano wraps there; GeneralizedTime can express them and the parsers accept them
+		{-11644473600, "y1601"}, {10413792000, "y2300"}, {19880899200, "y2600"}, {38350281600, "y3185"}, {253394524799, "y9999"}}
 	for _, e := range effs {
 		for _, i := range ineffs {
 			for _, t := range targets {
